@@ -46,6 +46,7 @@ type FuncContract struct {
 	Fields   []*Clause // reset-coverage classification (C11)
 	AbstractCallees []string // calls havocked while verifying this function
 	ModAny   bool // "modifies *": no frame is claimed
+	InlineCallees []string // callees whose bodies are used instead of their contracts here
 	SplitParam string // enumerate this integer parameter over [SplitLo, SplitHi]
 	SplitLo, SplitHi int64
 	Resets   []*ResetClause
@@ -746,7 +747,15 @@ func (w *World) parseContractFile(pkgPath, file string) error {
 			}
 		case "inline":
 			if cur != nil {
-				cur.Inline = true
+				if strings.TrimSpace(rest) == "" {
+					cur.Inline = true
+				} else {
+					for _, part := range splitTop(rest, ',') {
+						if part != "" {
+							cur.InlineCallees = append(cur.InlineCallees, part)
+						}
+					}
+				}
 			}
 		case "trusted":
 			if cur != nil {
